@@ -39,7 +39,7 @@ Print Assumptions C01_oracle_on_model.
    and through `map`; the logs are non-empty and stop at the first terminal. *)
 Definition c01_example : scenario :=
   {| sc_scripts := [([[Nx (VInt 1); Co; Nx (VInt 2); Er 7; Co]], false)];
-     sc_subjects := []; sc_conns := []; sc_handles := 2;
+     sc_subjects := []; sc_conns := []; sc_defs := []; sc_handles := 2;
      sc_script := [DSub 0 (PCold 0) []; DSub 1 (POp (OMap (FAdd 1)) (PCold 0) []) []] |}.
 Example C01_example_logs :
   let w := snd (run_scenario 1000 c01_example) in
